@@ -643,6 +643,8 @@ def bool_function(prog, path, atom, depth=3, max_paths=64, keep=None, result=Non
     for conds, ret in ps:
         cs = []
         for c, tk in conds:
+            if strip(c)[0] == "const":
+                continue   # a flag whose value is known on this path (`let a = x && y; .. a && b`): paths() took the only feasible edge
             k = classify(c)
             if k is None:
                 return None, "a branch on `%s` is not one of the expected tests" % _short(unnot(norm(c))[0])
